@@ -46,11 +46,21 @@ def run_enter_exit(mutate=None):
         import logging
         for nsub in range(len(NAMES) + 1):
             for sub in itertools.combinations(NAMES, nsub):
-                for out in ("o.h5", None):
+                for out, kind in (("o.h5", "foreign files"), ("o.h5", "outputs of runs stopped before their first frame"), (None, "foreign files")):
                     if out is None and sub:
                         continue
-                    tag = ("+".join(x.split("/")[-1] for x in sub) or "empty") + ("" if out else "|tempdir")
+                    if kind != "foreign files" and not sub:
+                        continue
+                    tag = ("+".join(x.split("/")[-1] for x in sub) or "empty") + ("" if out else "|tempdir") + ("" if kind == "foreign files" else "|stopped-run outputs")
                     fs = fsmodel.FS(existing=sub)
+                    if kind != "foreign files":
+                        # whatever an existing file holds - also the frame-less output of an earlier run that stopped while thermalising - it is the user's file
+                        for p_ in sub:
+                            if not p_.endswith(".tmp"):
+                                f_ = fsmodel.File(fs, p_, "r")
+                                f_.items_["data"] = fsmodel.Group(fs, "/data/")
+                                f_.items_["mesh"] = fsmodel.Group(fs, "/mesh/")
+                                fs.files[p_] = f_
                     L = load_runner(fs, mutate)
                     lg = logging.getLogger("pyvc-dh")
                     lg.disabled = True
@@ -59,7 +69,8 @@ def run_enter_exit(mutate=None):
                     dh.__enter__()
                     # a fresh name is chosen: an existing file at the requested path is never opened or modified
                     check(f"C15.enter_fresh_name[{tag}]", z3.BoolVal(dh.output_path not in before and dh.tmp_path not in before))
-                    check(f"C15.enter_existing_untouched[{tag}]", z3.BoolVal(before <= fs.existing and not any(p in before for p in fs.created)))
+                    check(f"C15.enter_existing_untouched[{tag}]", z3.BoolVal(before <= fs.existing and not any(p in before for p in fs.created) and not any(p in before for p in fs.removed)),
+                          note=f"created {fs.created} removed {fs.removed}")
                     # no leak: exactly the two returned files were created and are the only open handles
                     check(f"C15.enter_no_leak.created_only_what_is_returned[{tag}]", z3.BoolVal(set(fs.created) - set(fs.removed) == {dh.output_path, dh.tmp_path} and (fs.existing - set(fs.tempdirs)) == before | {dh.output_path, dh.tmp_path}),
                           note=f"created {fs.created} removed {fs.removed}")
